@@ -187,7 +187,7 @@ class GeneralStatus:
 
     @property
     def HW_interlock(self):
-        return utils.bytes_to_binary(self.status[9:13][::-1])
+        return utils.bytes_to_binary(self.status[9:13])[::-1]
 
     @property
     def EStop_Device(self):
@@ -431,7 +431,7 @@ class GeneralStatus:
 
     @property
     def SW_interlock(self):
-        return utils.bytes_to_binary(self.status[13:17][::-1])
+        return utils.bytes_to_binary(self.status[13:17])[::-1]
 
     @property
     def Control_System_Off(self):
